@@ -350,11 +350,14 @@ impl EigenTrustEngine {
         }
 
         // Apply multi-factor trust adjustments
+        // A node without a statistics entry is rated like a node with empty statistics
+        // (neutral response rate); skipping it left it at factor 1.0, above any node that
+        // has ever been reported on, so the first success reported for a peer lowered its score.
+        let default_stats = NodeStatistics::default();
         for (node, trust) in trust_vector.iter_mut() {
-            if let Some(stats) = node_stats.get(node) {
-                let factor = self.compute_multi_factor_adjustment(stats);
-                *trust *= factor;
-            }
+            let stats = node_stats.get(node).unwrap_or(&default_stats);
+            let factor = self.compute_multi_factor_adjustment(stats);
+            *trust *= factor;
         }
 
         // Apply time decay
